@@ -2,9 +2,25 @@
 import json,sys
 props={json.loads(l)['id']:json.loads(l) for l in open('/verif/properties.jsonl')}
 i=sys.argv[1]; p=props[i]
+# optional second argument: a round tag; later rounds get their own directories, variant letters and
+# a list of what earlier rounds already did for this property (so that they pick something else)
+tag=sys.argv[2] if len(sys.argv)>2 else ''
+va,vb=('a','b') if not tag else ('c','d')
+import glob,os,re
+avoid=''
+if tag:
+    items=[]
+    for d in sorted(glob.glob(f'/verif/seeded/{i}?')):
+        try:
+            m=json.load(open(d+'/meta.json'))
+            files=sorted(set(re.findall(r'^diff --git a/(\S+)',open(d+'/patch.diff').read(),re.M)))
+            items.append(f"   - in {', '.join(files)}: manifests with: {m['needs_to_manifest']}")
+        except Exception: pass
+    if items:
+        avoid="\nEarlier rounds already produced these changes for this property; yours must differ from them in mechanism AND in the code location (prefer files and clauses of the statement they did not touch):\n"+"\n".join(items)+"\n"
 print(f"""You are helping test a verification effort for the Go project cnotch/ipchub (an RTSP/RTP streaming media server with H.264/H.265/AAC parsing and FLV, HLS/MPEG-TS and WebSocket remuxing).
 
-You have your own scratch git worktree of the repository at /tmp/seed_{i} (detached HEAD). Work ONLY inside /tmp/seed_{i} and /tmp/seed_{i}_out. Do not read or write /verif, /repo or any other directory outside those two (reading Go's standard library and the module cache under /root/go/pkg/mod is fine).
+You have your own scratch git worktree of the repository at /tmp/seed{tag}_{i} (detached HEAD). Work ONLY inside /tmp/seed{tag}_{i} and /tmp/seed{tag}_{i}_out. Do not read or write /verif, /repo or any other directory outside those two (reading Go's standard library and the module cache under /root/go/pkg/mod is fine).
 
 Here is a semantic property that the project is supposed to satisfy:
 
@@ -12,17 +28,18 @@ Here is a semantic property that the project is supposed to satisfy:
   Statement: {p['statement']}
   It must hold: {p['quantifier']['text']}
 
-YOUR TASK: produce TWO different, realistic source changes (call them "a" and "b") to the project, each of which BREAKS this property while the project still compiles and its existing test suite still passes. Think of the kind of regression a well-meaning developer could introduce (an optimisation, a refactor, an off-by-one, a dropped lock, a wrong condition, a reordered statement, two sites that each look fine alone).
+{avoid}
+YOUR TASK: produce TWO different, realistic source changes (call them "{va}" and "{vb}") to the project, each of which BREAKS this property while the project still compiles and its existing test suite still passes. Think of the kind of regression a well-meaning developer could introduce (an optimisation, a refactor, an off-by-one, a dropped lock, a wrong condition, a reordered statement, two sites that each look fine alone).
 
 Requirements for each change:
  1. It must need something SPECIFIC to manifest — a particular interleaving, a crash or fault at a particular point, a multi-step sequence of operations, an unusual input, or two cooperating sites — NOT something ordinary use would expose at once, and not something that makes most inputs fail.
- 2. After the change: `cd /tmp/seed_{i} && export GOFLAGS=-mod=mod GOPROXY=off GOSUMDB=off && go build ./... && go test -vet=off -count=1 ./...` must give the same results as before the change. (Known on the unchanged tree: av/format/flv TestFlvWriter, av/format/mpegts TestMpegtsWriter and av/format/rtp TestDemuxer always fail because test assets are missing, and service/wsp TestRequest_ResponseOK is flaky. Everything else passes.) There is no network.
- 3. Provide a DEMONSTRATION: a Go test file (placed in the relevant package directory, named zz_seed_demo_test.go, using only the standard library and the project's own packages) containing a test that FAILS with your change applied and PASSES on the unchanged tree. Verify both yourself. IMPORTANT: never use `git stash` (the stash is shared with other worktrees of this repository); to switch between the changed and unchanged tree use `git diff > /tmp/seed_{i}_out/x.diff; git apply -R /tmp/seed_{i}_out/x.diff` and `git apply /tmp/seed_{i}_out/x.diff`. If the change is a concurrency bug, the demo may force the interleaving with small sleeps, channels or loops, but it must fail reliably (say so if it is probabilistic and how often it fails).
+ 2. After the change: `cd /tmp/seed{tag}_{i} && export GOFLAGS=-mod=mod GOPROXY=off GOSUMDB=off && go build ./... && go test -vet=off -count=1 ./...` must give the same results as before the change. (Known on the unchanged tree: av/format/flv TestFlvWriter, av/format/mpegts TestMpegtsWriter and av/format/rtp TestDemuxer always fail because test assets are missing, and service/wsp TestRequest_ResponseOK is flaky. Everything else passes.) There is no network.
+ 3. Provide a DEMONSTRATION: a Go test file (placed in the relevant package directory, named zz_seed_demo_test.go, using only the standard library and the project's own packages) containing a test whose name starts with TestSeedDemo that FAILS with your change applied and PASSES on the unchanged tree. Verify both yourself. IMPORTANT: never use `git stash` (the stash is shared with other worktrees of this repository); to switch between the changed and unchanged tree use `git diff > /tmp/seed{tag}_{i}_out/x.diff; git apply -R /tmp/seed{tag}_{i}_out/x.diff` and `git apply /tmp/seed{tag}_{i}_out/x.diff`. If the change is a concurrency bug, the demo may force the interleaving with small sleeps, channels or loops, but it must fail reliably (say so if it is probabilistic and how often it fails).
  4. Keep each change small (a few lines, at most ~30) and confined to non-test .go files of the project.
 
-DELIVERABLES — write these files (create the directory /tmp/seed_{i}_out):
-  /tmp/seed_{i}_out/a/patch.diff   (output of `git diff` for change a only, applicable with `git apply` to the unchanged tree; must NOT contain the demo test)
-  /tmp/seed_{i}_out/a/zz_seed_demo_test.go  (the demonstration test) 
-  /tmp/seed_{i}_out/a/notes.md     (which package directory the demo test goes in, the exact command to run it, what the change does, what specific condition it needs to manifest, and the observed demo output with and without the change)
-  and the same three files under /tmp/seed_{i}_out/b/ for change b.
+DELIVERABLES — write these files (create the directory /tmp/seed{tag}_{i}_out):
+  /tmp/seed{tag}_{i}_out/{va}/patch.diff   (output of `git diff` for change {va} only, applicable with `git apply` to the unchanged tree; must NOT contain the demo test)
+  /tmp/seed{tag}_{i}_out/{va}/zz_seed_demo_test.go  (the demonstration test) 
+  /tmp/seed{tag}_{i}_out/{va}/notes.md     (which package directory the demo test goes in, the exact command to run it, what the change does, what specific condition it needs to manifest, and the observed demo output with and without the change)
+  and the same three files under /tmp/seed{tag}_{i}_out/{vb}/ for change {vb}.
 Leave the worktree clean (git status empty, no leftover demo files) when you finish. Your final message should be a 5-line summary of both changes.""")
